@@ -58,7 +58,7 @@ Theorem C01_newton_loop_exits_early_small_e : forall e0 i r w m n b ts j,
 Proof. exact newton_loop_exits_early3. Qed.
 Print Assumptions C01_newton_loop_exits_early_small_e.
 
-(* THE 1 mm / 1 um/s CLAIM with no hypothesis on the loop: every answered propagation (e0 > 1e-4) with a <= 2 earth radii and
+(* THE 1 mm / 1 um/s CLAIM with no hypothesis on the loop: every answered propagation (e0 > 1e-4) with a <= 4 earth radii and
    eL^2 <= 4/25 returns -- nn1_returned j being the six elements handed to kep2xyz when the loop is left at test j --
    a position within 1e-6 km and a velocity within 1e-9 km/s, per coordinate, of the report's at the unique exact solution
    of Kepler's equation for Ucap = fmod(U, 2 pi) *)
@@ -67,7 +67,7 @@ Theorem C01_answered_position_accuracy : forall e0 i r w m n b ts j,
   gen_nn1_prop_outcome e0 i r w m n b ts = PropOk j ->
   let El := E e0 i r w m n b in let T := mkT false ts in let ec := ecl e0 i r w m n b ts in
   let Ucap := fmodR (U El T ec) (2 * PI) in
-  a El T <= 2 -> eL2 El T ec <= 4 / 25 ->
+  a El T <= 4 -> eL2 El T ec <= 4 / 25 ->
   let '(radius, theta, eqinc, ascn, rdk, rfdk) := nn1_returned j e0 i r w m n b ts in
   exists Es, kepler_residual El T ec Ucap Es = 0 /\
     (forall Es', kepler_residual El T ec Ucap Es' = 0 -> Es' = Es) /\
@@ -86,7 +86,7 @@ Theorem C01_answered_position_accuracy_small_e : forall e0 i r w m n b ts j,
   gen_nn3_prop_outcome e0 i r w m n b ts = PropOk j ->
   let El := E e0 i r w m n b in let T := mkT true ts in let ec := ecl3 e0 i r w m n b ts in
   let Ucap := fmodR (U El T ec) (2 * PI) in
-  a El T <= 2 -> eL2 El T ec <= 4 / 25 ->
+  a El T <= 4 -> eL2 El T ec <= 4 / 25 ->
   let '(radius, theta, eqinc, ascn, rdk, rfdk) := nn3_returned j e0 i r w m n b ts in
   exists Es, kepler_residual El T ec Ucap Es = 0 /\
     (forall Es', kepler_residual El T ec Ucap Es' = 0 -> Es' = Es) /\
@@ -131,14 +131,14 @@ Proof. exact answered_when_healthy3. Qed.
 Print Assumptions C01_answered_when_healthy_small_e.
 
 (* non-vacuity of everything above: the ISS element set of the test-suite, propagated to its epoch, is on leaf 1
-   (C01_iss_on_leaf1), healthy (interval arithmetic), hence answered, and a <= 2: every hypothesis of
+   (C01_iss_on_leaf1), healthy (interval arithmetic), hence answered, and a <= 4: every hypothesis of
    C01_answered_position_accuracy is met by a concrete input *)
 Example C01_iss_answered :
   let e0 := 6703 / 10000000 in let i := 516416 / 10000 in let r := 2474627 / 10000 in let w := 1305360 / 10000 in
   let m := 3250288 / 10000 in let n := 1572125391 / 100000000 in let b := - (11606 / 1000000000) in
   gen_init_outcome e0 i r w m n b = InitMode NearNorm 1 /\
   (exists j, (j <= 5)%nat /\ gen_nn1_prop_outcome e0 i r w m n b 0 = PropOk j) /\
-  a (E e0 i r w m n b) (mkT false 0) <= 2 /\ eL2 (E e0 i r w m n b) (mkT false 0) (ecl e0 i r w m n b 0) <= 4 / 25.
+  a (E e0 i r w m n b) (mkT false 0) <= 4 /\ eL2 (E e0 i r w m n b) (mkT false 0) (ecl e0 i r w m n b 0) <= 4 / 25.
 Proof.
   cbv zeta. pose proof C01.C01_iss_on_leaf1 as Hleaf.
   assert (Hec : ecl (6703 / 10000000) (516416 / 10000) (2474627 / 10000) (1305360 / 10000) (3250288 / 10000)
